@@ -39,6 +39,14 @@ class Arg:
             return '%s,%s' % (self.short, self.long)
         return self.short or self.long
 
+    def ref(self, by, tag):
+        """how argument [by] names this argument in a requires/excludes list: the short or the long key, fixed
+        per (referring argument, referred argument) so that a case line is reproducible - two different arguments
+        may name the same argument differently"""
+        if self.short and self.long:
+            return self.short if (sum(map(ord, by.slot + self.slot + tag)) % 2 == 0) else self.long
+        return self.short or self.long
+
     def is_value(self):
         return self.kind != 'b'
 
@@ -66,9 +74,9 @@ class Arg:
         if self.fmt:
             o.append('fmt=' + self.fmt)
         if self.excl:
-            o.append('excl=' + ';'.join(a.refspec for a in self.excl))
+            o.append('excl=' + ';'.join(a.ref(self, 'x') for a in self.excl))
         if self.req:
-            o.append('req=' + ';'.join(a.refspec for a in self.req))
+            o.append('req=' + ';'.join(a.ref(self, 'r') for a in self.req))
         if self.init is not None:
             o.append('init=' + self.init)
         if self.mix:
@@ -332,7 +340,9 @@ def gen_line(rng, args, cons, maxuses=6):
         pa = posargs[0]
         ordered.remove(pa)
         slots_ok = [0] + [k + 1 for k, b in enumerate(ordered) if not b.multi and b.kind != 'lc']
-        ordered.insert(rng.choice(slots_ok), pa)
+        # preferred: behind a flag that follows a multi-value argument (the flag must end the value list)
+        pref = [k + 1 for k, b in enumerate(ordered) if b.kind == 'b' and k > 0 and ordered[k - 1].multi]
+        ordered.insert(rng.choice(pref) if pref and rng.chance(2, 3) else rng.choice(slots_ok), pa)
     for a in ordered:
         if a.kind == 'lc':
             lo, hi = -50, 50
